@@ -7,7 +7,23 @@ use serde::{Deserialize, Serialize};
 use serde_json::{json, Value};
 
 pub const HEADERS: [&str; 2] = ["Hash: SHA256", "Hash: SHA512"];
-pub const PAYLOAD: [&str; 7] = ["", "A: b", " x", "x-----BEGIN PGP SIGNATURE-----", " -----END PGP SIGNATURE-----", "Hash: z", "é"];
+/// payload line templates: plain lines plus every marker wrapped in the neighbouring non-dash contexts
+/// (prefix 'x', leading blank / tab, trailing blank) -- none begins with '-'
+pub const PAYLOAD: [&str; 13] = [
+    "",
+    "A: b",
+    " x",
+    "Hash: z",
+    "é",
+    "x-----BEGIN PGP SIGNATURE-----",
+    " -----BEGIN PGP SIGNATURE-----",
+    "\t-----BEGIN PGP SIGNATURE-----",
+    " -----BEGIN PGP SIGNATURE----- ",
+    "x-----END PGP SIGNATURE-----",
+    " -----END PGP SIGNATURE-----",
+    " -----BEGIN PGP SIGNED MESSAGE-----",
+    "x-----BEGIN PGP SIGNED MESSAGE-----",
+];
 pub const SIGLINES: [&str; 3] = ["iQ", "=ab", "x y"];
 pub const APPENDS: [&str; 4] = ["x\n", "\n", " ", "-----BEGIN PGP SIGNATURE-----\n"];
 const M_BEGIN: &str = "-----BEGIN PGP SIGNED MESSAGE-----";
@@ -130,7 +146,7 @@ impl Prop for C19 {
         "fault_enumeration"
     }
     fn rule(&self, _t: Tier) -> String {
-        "message family = every sequence of <= 2 armour headers x every sequence of <= 3 (thorough 4) payload lines from 7 templates (empty, deb822, indented, marker look-alikes, header look-alike, Unicode) x every sequence of <= 2 signature lines; faults, ALL of them per message: no fault, truncation after every line (0..all), every trailing addition from 4, the payload alone (unsigned passthrough), and for the sub-family with <= 1 header, <= 2 payload lines, <= 1 signature line every BYTE prefix; the expected result is computed from the construction offsets, never by re-scanning; all cases distinct; non-trivial = every case with a fault".into()
+        "message family = every sequence of <= 2 armour headers x every sequence of <= 3 (thorough 4) payload lines from 13 templates (empty, deb822, indented, header look-alike, Unicode, and all three markers behind a letter / blank / tab or followed by a blank) x every sequence of <= 2 signature lines; faults, ALL of them per message: no fault, truncation after every line (0..all), every trailing addition from 4, the payload alone (unsigned passthrough), and for the sub-family with <= 1 header, <= 2 payload lines, <= 1 signature line every BYTE prefix; the expected result is computed from the construction offsets, never by re-scanning; all cases distinct; non-trivial = every case with a fault".into()
     }
     fn bounds(&self, t: Tier) -> Value {
         json!({"headers": HEADERS, "payload_lines": PAYLOAD, "signature_lines": SIGLINES, "appends": APPENDS, "max_headers": 2, "max_payload_lines": t.pick(3, 4), "max_signature_lines": 2})
